@@ -541,10 +541,33 @@ func (c *Ctx) checkBlockMembership(cfg TraceConfig) {
 					d, isC := a.Args[1].intConst()
 					bitOK = isC && d == 1024
 				}
+				// for a value known not to be negative, mask and shift are the same split: v & 1023, v >> 10
+				nonNeg := false
+				if bt, isB := val.Typ.Underlying().(*types.Basic); val.Typ != nil && isB && bt.Info()&types.IsUnsigned != 0 {
+					nonNeg = true
+				}
+				if hasFact(fb, func(f Fact) bool {
+					z, isz := f.Y.intConst()
+					return f.X.Key() == val.Key() && isz && z == 0 && f.Op == token.GEQ
+				}) {
+					nonNeg = true
+				}
+				if !bitOK && nonNeg && a.Kind == KBin && a.Op == token.AND && a.Args[0].Key() == val.Key() {
+					d, isC := a.Args[1].intConst()
+					bitOK = isC && d == 1023
+				}
 				// block = value / 1024 == Start (setter) or stored into Start (constructor)
 				isBlock := func(s *Sym) bool {
 					for s.Kind == KConv {
 						s = s.Args[0]
+					}
+					if s.Kind == KBin && s.Op == token.SHR && nonNeg && s.Args[0].Key() == val.Key() {
+						sh := s.Args[1]
+						for sh.Kind == KConv {
+							sh = sh.Args[0]
+						}
+						d, isC := sh.intConst()
+						return isC && d == 10
 					}
 					if s.Kind != KBin || s.Op != token.QUO || s.Args[0].Key() != val.Key() {
 						return false
